@@ -284,7 +284,7 @@ HEXE = ["%00", "%0a", "%1f", "%20", "%22", "%25", "%2f", "%2F", "%2g", "%g2", "%
 FIRSTS = [0, 1, 2, 5, 9, 10, 99, 100, 499, 500, 65535, 2 ** 31, 2 ** 63, 2 ** 64, 10 ** 20, 10 ** 4299, 10 ** 4300 - 1, 10 ** 4300]
 
 
-def boundary_cases(rng, fz) -> list[str]:
+def boundary_cases(rng, fz, counts=COUNTS) -> list[str]:
     """boundary-oriented header texts, deterministic core plus a few random combinations per family."""
     out = []
     # cookies: every escape shape at the edges of the octal class, in every position of a quoted value
@@ -301,6 +301,10 @@ def boundary_cases(rng, fz) -> list[str]:
             if last < 0:
                 continue
             a, b = fz(f), fz(last)
+            if f > 10 ** 100:       # 4300-digit conversions are slow in the extracted model: two shapes per boundary
+                if d in (-1, 1) and (f == 10 ** 4300 - 1 or len(counts) > 4):
+                    out += [f"bytes={a}-{b}", f"bytes {a}-{b}/*"]
+                continue
             out += [f"bytes={a}-{b}", f"bytes=0-0,{a}-{b}" if f > 1 else f"bytes={a}-{b},{fz(last + 2)}-", f"items = {a} - {b} ", f"bytes={a}-{b},-3"]
             # content ranges around the same boundary: stop and length one off either way
             for ln in (last - 1, last, last + 1, last + 2):
@@ -314,20 +318,23 @@ def boundary_cases(rng, fz) -> list[str]:
         out += [f"a; k*=utf-8''{e}", f"a; k*=us-ascii''x{e}y", f"a; k*=iso-8859-1''{e}{e}", f'a; k*="{e}"', f"k*=utf-8''{e}, j={e}", f"a; k*0*=utf-8''{e}; k*1*={e}"]
     # numbers: long digit runs and the limits of every numeric field
     for nn in ["0", "1", "65535", "65536", "86399999999999", "86400000000000", "9" * 18, "9" * 19, "9" * 20, "1" * 4299, "1" * 4300, "1" * 4301, "0" * 4301, "-" + "1" * 4300, "1" * 10000]:
-        out += [nn, f" {nn} ", f"max-age={nn}", f"a;q={nn}", f"a;q=0.{nn}", f"a;q=1.{nn}", f"x:{nn}"]
+        out += [nn, f" {nn} ", f"max-age={nn}", f"a;q={nn}", f"x:{nn}"]
+        if len(nn) <= 20:        # long fractions are slow in the exact float-threshold arithmetic of the model
+            out += [f"a;q=0.{nn}", f"a;q=1.{nn}"]
+    out += ["a;q=0." + "9" * 400, "a;q=1." + "0" * 400 + "1", "a;q=-0." + "0" * 400 + "1"]
     # counts and lengths at powers of ten: list items, cookie pairs, parameters, directives, plain length
-    for c in COUNTS:
+    for c in counts:
         out += [",".join(f"i{i}" for i in range(c)), ", ".join(f'"t{i}"' for i in range(c)), "; ".join(f"k{i}=v{i}" for i in range(c)),
                 "a" + "".join(f"; p{i}=v" for i in range(c)), ", ".join(f"d{i}={i}" for i in range(c)), "bytes=" + ",".join(f"{2 * i}-{2 * i}" for i in range(c)),
                 "a" * c, "a" * (c * 10), '"' * c, "\\" * c, ";" * c, "," * c, "=" * c, "*" * c, " " * c + "x", "x" + "\xa0" * c,
-                "text/html;q=0." + "5" * c, ",".join("text/html;q=0.5" for _ in range(c)), "a;k*=utf-8''" + "%C3%A9" * c, "Basic " + "QUJD" * c, "Basic " + "=" * c]
+                "text/html;q=0." + "5" * min(c, 300), ",".join("text/html;q=0.5" for _ in range(c)), "a;k*=utf-8''" + "%C3%A9" * c, "Basic " + "QUJD" * c, "Basic " + "=" * c]
     return out
 
 
-def boundary_environs() -> list[tuple[str, str]]:
+def boundary_environs(counts=COUNTS) -> list[tuple[str, str]]:
     """(environ variable, value) pairs with field counts and lengths at powers of ten."""
     out = []
-    for c in COUNTS:
+    for c in counts:
         out += [("QUERY_STRING", "&".join(f"k{i}=v{i}" for i in range(c))), ("QUERY_STRING", "&" * c), ("QUERY_STRING", "&".join("a" for _ in range(c))),
                 ("QUERY_STRING", "&".join("id=1" for _ in range(c))), ("QUERY_STRING", "a=" + "%FF" * c), ("QUERY_STRING", ";".join(f"k{i}=v" for i in range(c))),
                 ("HTTP_COOKIE", "; ".join(f"k{i}=v{i}" for i in range(c))), ("HTTP_COOKIE", "k=" + "v" * (10 * c)),
@@ -355,6 +362,8 @@ def classify(name: str, e: BaseException, s) -> str:
     """a specific key for an escaping exception: call site + exception + message class."""
     msg = str(e)
     n = type(e).__name__
+    if "embedded null" in msg and "Charset" in name:
+        return "charset-accept-nul"
     if name.startswith(("Request.url", "Request.base_url", "Request.root_url", "Request.host_url", "Request.url_root")) or name == "uri_to_iri":
         if "Port" in msg:
             return "url-host-port"
@@ -537,21 +546,23 @@ def run(chk: Check) -> None:
     PARSERS[1] = ("parse_list_header", H.parse_list_header, is_(list), "plist", fl, None)
 
     def run_parsers(s, in_domain=True):
+        enc = cps(s)
         for name, fn, typ, cmd, show, cn in PARSERS:
             if cmd == "page" and any(ord(c) > 127 and c.isdigit() for c in s):
                 cmd = None      # non-ASCII digits: outside the int() model
             if cmd == "plist":
                 observe(name, fn, s, typ, None, None, None, in_domain)
-                lines.append(f"plist {cps(s)}")
+                lines.append(f"plist {enc}")
                 impl.append(fl(fn(s)))
                 canon.append(None)
                 continue
-            observe(name, fn, s, typ, f"{cmd} {cps(s)}" if cmd else None, show if cmd else None, cn, in_domain)
+            observe(name, fn, s, typ, f"{cmd} {enc}" if cmd else None, show if cmd else None, cn, in_domain)
 
     # ---------------------------------------------------------------- corpus first
     for s in corpus["parsers"]:
         run_parsers(s)
-    for s in boundary_cases(rng, fz):
+    counts = [10, 100, 1000, 1001] if quick else COUNTS
+    for s in boundary_cases(rng, fz, counts):
         run_parsers(s)
     for _ in range(n):
         run_parsers(gen_hostile(rng))
@@ -649,11 +660,11 @@ def run(chk: Check) -> None:
         return e
     bodies = [b"", b"a=b&c=%ff", b"--x\r\nContent-Disposition: form-data; name=\"a\"\r\n\r\nv\r\n--x--\r\n", b'{"a": 1}', b"\xff\xfe"]
     env_cases = [({k: v}, m) for k, vs in corpus["environ"].items() for v in vs for m in ("GET", "POST")]
-    env_cases += [({k: v}, "GET") for k, v in boundary_environs()]
-    bcs = boundary_cases(rng, fz)
+    env_cases += [({k: v}, "GET") for k, v in boundary_environs(counts)]
+    bcs = boundary_cases(rng, fz, [10])
     for k, pick in (("HTTP_COOKIE", lambda x: x.startswith(("a=", "sid=", "k=", "first=", "b="))), ("HTTP_RANGE", lambda x: x.startswith(("bytes=", "items ="))),
                     ("HTTP_IF_RANGE", lambda x: x.startswith("bytes=")), ("CONTENT_TYPE", lambda x: x.startswith("a; k*"))):
-        env_cases += [({k: v}, "GET") for v in bcs if pick(v) and len(v) < 200][:400]
+        env_cases += [({k: v}, "GET") for v in bcs if pick(v) and len(v) < 200][:(120 if quick else 400)]
     for _ in range(n):
         over = {}
         for _ in range(rng.choice([1, 1, 1, 2, 3])):
